@@ -141,9 +141,11 @@ def forces(n, tier):
 def ics(n, tier):
     d0 = np.array([0.1, -0.2, 0.05, 0.3, -0.15, 0.25])[:n]
     v0 = np.array([-3.0, 2.0, 1.0, -0.5, 1.5, -2.5])[:n]
-    out = {"none": (None, None, False), "d0v0": (d0, v0, False), "static": (None, None, True), "v0": (None, v0, False)}
+    out = {"none": (None, None, False), "d0v0": (d0, v0, False), "static": (None, None, True), "v0": (None, v0, False),
+           # documented: static_ic is quietly ignored when d0 is given
+           "d0+static": (d0, None, True)}
     if tier != "quick":
-        out.update({"d0": (d0, None, False)})
+        out.update({"d0": (d0, None, False), "d0v0+static": (d0, v0, True)})
     return out
 
 
@@ -635,8 +637,122 @@ def run_longrun(z1, ti, nonprop, order, ic, res):
     return msgs
 
 
+# ------------------------------------------------------------------ damping given as a vector on a coupled system
+def bvec_systems():
+    T3 = TRANS[3][0]
+    return {
+        "m1d-k2d": (np.array([1.0, 2.5]), np.array([0.8, 3.0]), np.array([[300.0, -100.0], [-100.0, 150.0]])),
+        "m2d-k2d": (T3.T @ np.diag([1.0, 2.0, 0.5]) @ T3, np.array([0.5, 2.0, 0.1]), T3.T @ np.diag([90.0, 400.0, 2500.0]) @ T3),
+        "mNone-k2d": (None, np.array([0.0, 1.5, 0.3]), np.array([[500.0, -200.0, 0.0], [-200.0, 450.0, -250.0], [0.0, -250.0, 250.0]])),
+        "m2d-heavy": (np.array([[2.0, 0.3], [0.3, 1.0]]), np.array([6.0, 0.05]), np.array([[120.0, -40.0], [-40.0, 800.0]])),
+    }
+
+
+def run_bvec(sysname, order, fname, icname, tier, res):
+    """m, k coupled with the damping handed over as a 1-D vector (dashpots to ground, generally NOT proportional to the
+    mass): with and without pre_eig, both solvers, against the exact response of B = diag(b)"""
+    from pyyeti import ode
+
+    msgs = []
+    m, b, K = bvec_systems()[sysname]
+    n = K.shape[0]
+    M = np.eye(n) if m is None else (np.diag(m) if m.ndim == 1 else m)
+    B = np.diag(b)
+    F = forces(n, tier)[fname].copy()
+    d0, v0, static = ics(n, tier)[icname]
+    el = list(range(n))
+    ref = reference(M, B, K, H, F, d0, v0, order, [], static, el)
+    A = np.zeros((2 * n, 2 * n))
+    A[:n, :n] = -np.linalg.solve(M, B)
+    A[:n, n:] = -np.linalg.solve(M, K)
+    A[n:, :n] = np.eye(n)
+    lam, ur = np.linalg.eig(A)
+    cond = np.linalg.cond(ur)
+    g = max(1.0, float(np.abs(lam).max()) * H)
+    mu = min(1.0, float(np.abs(lam).min()) * H)
+    te = np.full(n, 1e4 * EPS * g * np.linalg.cond(M) * 10)
+    tc = np.full(n, 1e3 * EPS * g * cond * mu ** -2)
+    s3 = scales(ref, M, B, K, F, np.full(n, float(np.abs(lam).max())))
+    sc3 = tuple(np.full(n, x.max()) for x in s3)
+    kw = dict(d0=d0, v0=v0, static_ic=static)
+    for tag, make, tols in (
+        ("SolveUnc/bvec", lambda: ode.SolveUnc(m, b, K, H, order=order), tc),
+        ("SolveExp2/bvec", lambda: ode.SolveExp2(m, b, K, H, order=order), te),
+        ("SolveUnc/bvec+pre_eig", lambda: ode.SolveUnc(m, b, K, H, order=order, pre_eig=True), tc * 10),
+        ("SolveExp2/bvec+pre_eig", lambda: ode.SolveExp2(m, b, K, H, order=order, pre_eig=True), te * 10),
+    ):
+        try:
+            ts_ = make()
+            sol = ts_.tsolve(F.copy(), **kw)
+        except Exception as e:  # noqa
+            msgs.append("%s: raised %r" % (tag, e))
+            continue
+        compare(sol, ref, tols, sc3, tag, msgs, res)
+        reuse_check(ts_, F, kw, sol, tag, msgs)
+        eom_residual(M, B, K, F, sol, el, [], tag, msgs, 1e4 * EPS * np.linalg.cond(M) * max(1.0, cond * 1e-2))
+    return msgs
+
+
+# ------------------------------------------------------------------ force / IC arrays of other dtypes and layouts
+def run_dtype(solver, order, icname, res):
+    """the force history may be any real array-like: integer, float32, nested lists, Fortran order or a strided view of
+    the same VALUES give bit-identical responses (all values exactly representable in every dtype used)"""
+    from pyyeti import ode
+
+    msgs = []
+    Fi = np.array([[1, -2, 0, 3, -1, 2], [0, 1, -1, 2, 4, -3], [-2, 1, 1, 0, 3, 0]], dtype=np.int64)
+    n = 3
+    m, b, k = np.array([1.0, 2.0, 0.5]), np.array([0.4, 3.0, 0.0]), np.array([250.0, 400.0, 0.0])
+    M = np.array([[1.0, 0.2, 0.0], [0.2, 2.0, 0.1], [0.0, 0.1, 0.5]])
+    K = np.array([[300.0, -100.0, 0.0], [-100.0, 250.0, -50.0], [0.0, -50.0, 90.0]])
+    Bm = np.array([[0.5, -0.1, 0.0], [-0.1, 0.8, -0.2], [0.0, -0.2, 0.3]])
+    d0, v0, static = ics(n, "quick")[icname]
+    if solver == "SolveExp1":
+        A = np.zeros((6, 6))
+        A[:3, :3] = -np.linalg.solve(M, Bm)
+        A[:3, 3:] = -np.linalg.solve(M, K)
+        A[3:, :3] = np.eye(3)
+        Fi = np.vstack((Fi, Fi[::-1] * 2))
+        mk = lambda: ode.SolveExp1(A, H, order=order)
+        kw = {} if d0 is None else dict(d0=np.concatenate((v0 if v0 is not None else np.zeros(3), d0)))
+        if static:
+            return msgs
+    else:
+        cls = getattr(ode, solver.split("/")[0])
+        args = (m, b, k) if solver.endswith("/diag") else (M, Bm, K)
+        mk = lambda: cls(*args, H, order=order)
+        kw = dict(d0=d0, v0=v0, static_ic=static)
+    base = mk().tsolve(Fi.astype(float), **kw)
+    big = np.zeros((Fi.shape[0] * 2, Fi.shape[1] * 2 + 1))
+    big[::2, 1::2] = Fi
+    forms = {"int64": Fi, "int32": Fi.astype(np.int32), "int8": Fi.astype(np.int8), "float32": Fi.astype(np.float32),
+             "list": Fi.tolist(), "fortran": np.asfortranarray(Fi.astype(float)),
+             "strided": big[::2, 1::2], "bool-scaled": None}
+    for fn, Fx in forms.items():
+        if Fx is None:
+            continue
+        snap = None if isinstance(Fx, list) else Fx.copy()
+        try:
+            sol = mk().tsolve(Fx, **kw)
+        except Exception as e:  # noqa
+            msgs.append("%s: tsolve raised %r for a force given as %s" % (solver, e, fn))
+            continue
+        for nm in ("dv" if solver == "SolveExp1" else "dva"):
+            x, y = getattr(sol, nm), getattr(base, nm)
+            if x.dtype != y.dtype or x.shape != y.shape or not np.array_equal(x, y):
+                msgs.append("%s: force given as %s: %s differs from the response to the same values as float64 (dtype %s, max diff %.3g)"
+                            % (solver, fn, nm, x.dtype, float(np.abs(np.asarray(x, float) - y).max()) if x.shape == y.shape else float("nan")))
+                break
+        if snap is not None and not (Fx.dtype == snap.dtype and np.array_equal(Fx, snap)):
+            msgs.append("%s: tsolve modified the caller's force array (%s)" % (solver, fn))
+    return msgs
+
+
 def shards(tier, seed):
     out = []
+    for sysname in bvec_systems():
+        out.append(dict(part="bvec", sys=sysname, tier=tier))
+    out.append(dict(part="dtype", tier=tier))
     for z1, ti, nonprop in ((0.01, 0, False), (0.01, 1, True), (0.5, 0, False), (0.5, 1, True)):
         out.append(dict(part="longrun", z1=z1, ti=ti, nonprop=nonprop, tier=tier))
     ms = modal_systems(tier)
@@ -664,6 +780,24 @@ def run_shard(sh):
             for m in run_longrun(sh["z1"], sh["ti"], sh["nonprop"], order, ic, res):
                 res.viol(case, m, kind="longrun")
         res.sample(dict(sh))
+        return res
+    if sh["part"] == "bvec":
+        n = bvec_systems()[sh["sys"]][2].shape[0]
+        for order, fname, icname in itertools.product((0, 1), forces(n, tier), ics(n, tier)):
+            case = dict(part="bvec", sys=sh["sys"], order=order, force=fname, ic=icname, tier=tier)
+            res.ev("bvec/%s/o%d/%s" % (sh["sys"], order, icname))
+            for m in run_bvec(sh["sys"], order, fname, icname, tier, res):
+                res.viol(case, m, kind=m.split(":")[0] + ("/" + m.split(":")[1].split()[0]))
+        res.sample(case)
+        return res
+    if sh["part"] == "dtype":
+        for solver, order, icname in itertools.product(("SolveExp1", "SolveExp2/diag", "SolveExp2/full", "SolveUnc/diag", "SolveUnc/full"), (0, 1),
+                                                       ("none", "d0v0", "static")):
+            case = dict(part="dtype", solver=solver, order=order, ic=icname, tier=tier)
+            res.ev("dtype/%s/o%d/%s" % (solver, order, icname))
+            for m in run_dtype(solver, order, icname, res):
+                res.viol(case, m, kind="dtype-" + m.split(":")[0] + m.split(":")[1][:25])
+        res.sample(case)
         return res
     if sh["part"] == "mc":
         mc = mc_systems(tier)
@@ -716,6 +850,10 @@ def replay(case):
     tier = case["tier"]
     if case["part"] == "longrun":
         return run_longrun(case["z1"], case["ti"], case["nonprop"], case["order"], case["ic"], res)
+    if case["part"] == "bvec":
+        return run_bvec(case["sys"], case["order"], case["force"], case["ic"], tier, res)
+    if case["part"] == "dtype":
+        return run_dtype(case["solver"], case["order"], case["ic"], res)
     if case["part"] == "mc":
         return run_mc(mc_systems(tier)[case["sys"]], case["order"], case["force"], case["ic"], tier, res)
     if case["part"] == "modal":
